@@ -111,6 +111,9 @@ HeldBy(c, f, t) ==    \* what the trajectory holds when it is added
 
 Cells(c) == {<<f, t, sp>> : f \in SFields, t \in Trajs, sp \in U}
 Stored(c, t) == t = 1 \/ Fits(c)        \* the second trajectory is stored only if it fits the file
+\* AfterRefusal: a second trajectory that does not fit is REFUSED as a whole - nothing of it is in the file, the store is as
+\* long as before, and the next addition (the harness gives a sparse one: no species values, every optional scalar unset) takes the index the refused one
+\* would have had and reads back as given: no cell of the refused trajectory shows through where the new one is unset
 Written(c) == {x \in Cells(c) : Stored(c, x[2]) /\ x[3] \in Sets(c, x[2])[x[1]]}
 
 \* writing: one cell per present species; a position beyond the species
